@@ -36,7 +36,7 @@ func (c09) Batches(tier string, seed uint64) []core.Batch {
 	for _, k := range []string{"scalars", "lists", "nested", "ptr", "required", "pass", "setupdate"} {
 		b = append(b, spread(k, 3, tierN(tier, 3000, 15000))...)
 	}
-	return b
+	return append(b, conc(tierN(tier, 150, 1000), "lists", "scalars", "nested", "pass")...)
 }
 
 func (c09) Mandatory(tier string) []string {
@@ -766,6 +766,9 @@ func (p c09) genPass(r *core.Rand) c09Pass {
 }
 
 func (p c09) RunBatch(t *core.T, b core.Batch) {
+	if concDispatch(p, t, b) {
+		return
+	}
 	r := t.Rand(b.Name, fmt.Sprint(b.Arg))
 	for i := 0; i < b.N; i++ {
 		switch b.Name {
